@@ -31,7 +31,8 @@ def evaluate_QUBO(Q: np.ndarray, c: float, x: ArrayLike) -> float:
 
     Returns `Q.dot(x).dot(x) + c`
     """
-    return Q.dot(x).dot(x) + c
+    # (scipy returns a scalar for the product of a one-row COO array and a vector)
+    return np.atleast_1d(Q.dot(x)).dot(x) + c
 
 def evaluate_Ising(J: np.ndarray, h: ArrayLike, c: float, s: ArrayLike) -> float:
     """
@@ -42,7 +43,7 @@ def evaluate_Ising(J: np.ndarray, h: ArrayLike, c: float, s: ArrayLike) -> float
     Returns `J.dot(s).dot(s) + h.dot(s) + c`
     Note that if `J` does not have zeroed-out diagonal, this could be incorrect
     """
-    return J.dot(s).dot(s) + h.dot(s) + c
+    return np.atleast_1d(J.dot(s)).dot(s) + h.dot(s) + c
 
 def get_Ising_J_h(matrix):
     """
